@@ -31,6 +31,25 @@ def _limit_programs():
     return P
 
 
+def sweep_programs(upto=516):
+    """programs whose constant pools have every size from 4 to upto+3: the first bytes of a bytecode file (the pool size, low byte first) take every value"""
+    return [{'name': 'sweep:%d-constants' % (n + 4), 'text': '; '.join([str(k) for k in range(1000, 1000 + n)] + ['print("sweep ~\\n", %d)' % n]), 'ast': None,
+             'expect': ('sweep %d\n' % n).encode()} for n in range(upto)]
+
+
+def frame_limit_programs():
+    """callables whose frames have exactly 65535 and 65536 slots (slot indices are 16 bits, so both are legal); too long for TLC, observed through the CLI"""
+    def lets(n): return '; '.join('let v%d = 0' % k for k in range(n))
+    P = []
+    for params, locals_ in ((1, 65535), (0, 65535), (1, 65534), (255, 65281)):
+        ps = ', '.join('p%d' % k for k in range(params))
+        args = ', '.join('40' for _ in range(params))
+        P.append(('framelimit:function-%d-parameters-%d-locals' % (params, locals_), 'function f(%s) -> begin %s; v%d <- 2; %s + v%d end; print("~\\n", f(%s))' % (ps, lets(locals_), locals_ - 1, 'p0' if params else '40', locals_ - 1, args), b'42\n'))
+    P.append(('framelimit:method-this-65535-locals', 'let o = object begin let k = 40; function m() -> begin %s; v65534 <- 2; this.k + v65534 end end; print("~\\n", o.m())' % lets(65535), b'42\n'))
+    P.append(('framelimit:top-level-block-65535-locals', 'begin %s; v65534 <- 42; print("~\\n", v65534) end' % lets(65535), b'42\n'))
+    return [{'name': n, 'text': t, 'ast': None, 'expect': e} for n, t, e in P]
+
+
 def over_limit_programs():
     """programs just beyond the documented format limits: a compiler may refuse them, but whatever it emits must still be well-formed (C02 only)"""
     def args(n): return ', '.join(str(i) for i in range(n))
@@ -172,9 +191,9 @@ def construct_family(pairs=False, limit=None, rng=None):
             ast = Top(stmts)
             out.append({'name': 'cxpair:%s,%s' % (n1, n2), 'text': unparse(ast), 'ast': strip_marks(ast)})
     if limit is not None and len(out) > limit:
-        # every construct in the three most telling positions under every frame kind is always kept; the rest is sampled
+        # every construct in the four most telling positions (discarded, last statement of the frame, kept, pending argument) under every frame kind is always kept; the rest is sampled
         rng = rng or random.Random(seed())
-        core = [p for p in out if p['name'].startswith('cx:') and p['name'].split('/')[1] in ('top_discard', 'kept_print', 'arg_pending')]
+        core = [p for p in out if p['name'].startswith('cx:') and p['name'].split('/')[1] in ('top_discard', 'top_last', 'kept_print', 'arg_pending')]
         rest = [p for p in out if p not in core]
         out = core + rng.sample(rest, max(0, min(len(rest), limit - len(core))))
     return out
